@@ -475,6 +475,9 @@ func c10ClientRun(c c10ClientCase) Verdict {
 	fs := &fakeServer{mode: c.Server, done: make(chan struct{})}
 	var (
 		extTLS, extPlain, extInj bool
+		authLogin, authPlain     bool
+		maxSize                  int
+		maxSizeOK                bool
 		callErr                  error
 		hung                     bool
 	)
@@ -494,6 +497,8 @@ func c10ClientRun(c c10ClientCase) Verdict {
 				extTLS, _ = client.Extension("XTLSONLY")
 				extPlain, _ = client.Extension("XPLAIN")
 				extInj, _ = client.Extension("XINJECTED")
+				authLogin, authPlain = client.SupportsAuth("LOGIN"), client.SupportsAuth("plain")
+				maxSize, maxSizeOK = client.MaxMessageSize()
 				callErr = client.SendMail(from, to, strings.NewReader(body))
 				client.Quit()
 				client.Close()
@@ -533,6 +538,8 @@ func c10ClientRun(c c10ClientCase) Verdict {
 					extTLS, _ = client.Extension("XTLSONLY")
 					extPlain, _ = client.Extension("XPLAIN")
 					extInj, _ = client.Extension("XINJECTED")
+					authLogin, authPlain = client.SupportsAuth("LOGIN"), client.SupportsAuth("plain")
+					maxSize, maxSizeOK = client.MaxMessageSize()
 					callErr = client.SendMail(from, to, strings.NewReader(body))
 					client.Quit()
 					client.Close()
@@ -611,6 +618,9 @@ func c10ClientRun(c c10ClientCase) Verdict {
 		if (c.Entry == "newclient" || c.Entry == "dial") && (extPlain || extTLS) {
 			return failf("stale-capabilities", "server %q offers nothing inside TLS, yet Extension() still reports capabilities (XPLAIN=%v)", c.Server, extPlain)
 		}
+		if (c.Entry == "newclient" || c.Entry == "dial") && (authPlain || authLogin || maxSizeOK) {
+			return failf("stale-capabilities", "server %q offers nothing inside TLS, yet SupportsAuth(PLAIN)=%v SupportsAuth(LOGIN)=%v MaxMessageSize=(%d,%v): capabilities learned in plaintext", c.Server, authPlain, authLogin, maxSize, maxSizeOK)
+		}
 		return v
 	}
 	if !strings.Contains(joined, "MAIL FROM:<sender@example.org>") || !strings.Contains(joined, "RCPT TO:<rcpt@example.org>") {
@@ -622,6 +632,11 @@ func c10ClientRun(c c10ClientCase) Verdict {
 	if c.Entry == "newclient" || c.Entry == "dial" {
 		if !extTLS || extPlain || extInj {
 			return failf("stale-capabilities", "after the upgrade Extension() reports XTLSONLY=%v XPLAIN=%v XINJECTED=%v, want true/false/false", extTLS, extPlain, extInj)
+		}
+		// the TLS side offers AUTH PLAIN and no SIZE; the plaintext side
+		// offered SIZE 1000, the injected reply AUTH PLAIN LOGIN
+		if !authPlain || authLogin || maxSizeOK {
+			return failf("stale-capabilities", "after the upgrade SupportsAuth(plain)=%v SupportsAuth(LOGIN)=%v MaxMessageSize=(%d,%v), want true / false / not conveyed: the accessors answer from the TLS-side EHLO reply", authPlain, authLogin, maxSize, maxSizeOK)
 		}
 	}
 	return v
